@@ -516,6 +516,68 @@ def v15(rep):
     rep.floor("stores of a literal into a conjunction", n, 8)
 
 
+def v17(rep):
+    """A slot's place in a table is its hash modulo the table's bucket count.  Code that walks one table's buckets by index and
+    stores into another table's bucket array at the same index (tblCopy) is right only if the second array has the same number
+    of buckets: with fewer, the stores for the upper buckets land beyond the array, and the chains that do fit hang from
+    buckets where no lookup will search for them (a copy of a table that has grown past 35 entries loses most of its keys,
+    iterates over part of them and still reports the original's size).  In table.c, inside a loop bounded by `i < E`, every use
+    of `T->buckv[i]` / `T->buckv + i` has E equal to T's own bucket count: E is `T->buckc`, or T was made in this function by
+    tblNew0(.., E) with the same expression."""
+    f = common.extract("table.c", all_trees=True)
+    n = two = 0
+    for name, fn in sorted(f.funcs.items()):
+        if "body" not in fn or not fn.get("file", "").endswith("table.c"):
+            continue
+        made = {}
+        for x in walk(fn["body"]):
+            if x["k"] == "BinaryOperator" and x["op"] == "=":
+                l, r = strip(x["c"][0]), strip(x["c"][1])
+                if l is not None and l["k"] == "DeclRefExpr" and r is not None and r["k"] == "CallExpr" \
+                        and (r.get("callee") or "").startswith("tblNew"):
+                    args = r["c"][1:]
+                    made[l["n"]] = render(strip(args[2])) if r["callee"] == "tblNew0" and len(args) >= 3 else "<default:%s>" % r["callee"]
+                elif l is not None and l["k"] == "MemberExpr" and l["n"] == "buckc" and r is not None:
+                    made.setdefault(render(strip(l["c"][0])), render(r))     # the count is set here: t->buckc = E
+        for lp in walk(fn["body"]):
+            if lp["k"] != "ForStmt":
+                continue
+            cond = strip(lp["c"][-3])
+            if cond is None or cond["k"] != "BinaryOperator" or cond["op"] != "<":
+                continue
+            iv, bound = strip(cond["c"][0]), render(strip(cond["c"][1]))
+            if iv is None or iv["k"] != "DeclRefExpr":
+                continue
+            for y in walk(lp["c"][-1]):
+                base = None
+                if y["k"] == "ArraySubscriptExpr":
+                    b_, ix = strip(y["c"][0]), strip(y["c"][1])
+                elif y["k"] == "BinaryOperator" and y["op"] == "+":
+                    b_, ix = strip(y["c"][0]), strip(y["c"][1])
+                else:
+                    continue
+                if b_ is None or b_["k"] != "MemberExpr" or b_["n"] != "buckv" or ix is None or render(ix) != iv["n"]:
+                    continue
+                t = render(strip(b_["c"][0]))
+                n += 1
+                own = "%s->buckc" % t
+                two += bound != own
+                key = "bucket-index-within-own-count:%s:%s" % (name, t)
+                if bound == own:
+                    rep.ok("V17", key + "@%d" % y["l"], nontrivial=False)
+                elif made.get(t) == bound:
+                    rep.ok("V17", key + "@%d" % y["l"], sample={"loop": bound, "made-with": made[t]})
+                else:
+                    rep.violation("V17", key, "table.c:%d (%s)" % (y["l"], name),
+                                  "`%s` is indexed by a loop that runs to `%s`, but %s has %s buckets: stores for the buckets "
+                                  "above that land beyond the array, and the chains that fit hang where a lookup (hash modulo the "
+                                  "table's own count) does not search -- a copy of a table grown past 35 entries loses most keys, "
+                                  "iterates over part of them and reports the original's size"
+                                  % (render(y)[:40], bound, t, ("`%s`" % made[t]) if t in made else "an unknown number of"))
+    rep.floor("bucket arrays indexed inside a counted loop (table.c)", n, 4)
+    rep.floor("bucket arrays indexed by a count that is not read from the same table", two, 2)
+
+
 def v16(rep, rule="V16"):
     """Making room and using it are two steps in that order: a rotation or an insertion first slides the keys (entries,
     branches) of a node up by one and then writes the new key into the slot that became free.  Written the other way round the
@@ -877,6 +939,7 @@ def run(tier, only=None):
     v14(rep)
     v15(rep)
     v16(rep)
+    v17(rep)
     try:
         v5(rep)
     except AnalysisBroken as e:
